@@ -56,6 +56,10 @@ theorem sink_replace_data_series_name___category_text_safe : safeTbl .text sink_
 theorem sink_replace_data_series_name___category_text_data (s : Str) : ∃ k', lexRun .text (.normal 0) (s.flatMap (sigma sink_replace_data_series_name___category)) = some (.normal k', s) :=
   safe_render .text sink_replace_data_series_name___category sink_replace_data_series_name___category_text_safe s 0 (by omega)
 
+theorem sink_run_hyperlink_address_beside_a_link_that_differs_in_letter_case_only_attr_safe : safeTbl .attr sink_run_hyperlink_address_beside_a_link_that_differs_in_letter_case_only = true := by decide
+theorem sink_run_hyperlink_address_beside_a_link_that_differs_in_letter_case_only_attr_data (s : Str) : ∃ k', lexRun .attr (.normal 0) (s.flatMap (sigma sink_run_hyperlink_address_beside_a_link_that_differs_in_letter_case_only)) = some (.normal k', s) :=
+  safe_render .attr sink_run_hyperlink_address_beside_a_link_that_differs_in_letter_case_only sink_run_hyperlink_address_beside_a_link_that_differs_in_letter_case_only_attr_safe s 0 (by omega)
+
 theorem sink_run_hyperlink_address__after_another_link_was_re_pointed_attr_safe : safeTbl .attr sink_run_hyperlink_address__after_another_link_was_re_pointed = true := by decide
 theorem sink_run_hyperlink_address__after_another_link_was_re_pointed_attr_data (s : Str) : ∃ k', lexRun .attr (.normal 0) (s.flatMap (sigma sink_run_hyperlink_address__after_another_link_was_re_pointed)) = some (.normal k', s) :=
   safe_render .attr sink_run_hyperlink_address__after_another_link_was_re_pointed sink_run_hyperlink_address__after_another_link_was_re_pointed_attr_safe s 0 (by omega)
